@@ -32,6 +32,7 @@ EXPLANATION = (
     ' (R5) for a well-formed exception answer (function code = cmd | 0x80, one code byte, RTU: correct CRC) to a read, write and write-multi command every validator outcome other than the rejection raise is refuted.'
     ' (R6) no loop callback schedules a method of the protocol object after completing the response future: the deferred call would act on the next request.'
     ' (R7, shared with C05.R2) the retry counter is reset wherever a request ends, a rejection included.'
+    ' (R9, shared with C09.R11) no computed-key lookup in a fixed-key dictionary of the protocol object can raise KeyError between catching the rejection and completing the future.'
     ' (R8) on its way out of send_request the rejection does not reach an unguarded release of a lock that is not held (RuntimeError would replace it; lock typestate of C06.R2).'
 )
 
@@ -145,6 +146,9 @@ def check(ctx: Ctx, rep: Report):
         if o.rule == "C05.R2":
             rep.obligations.append(type(o)("C08.R7", o.key, o.where, o.what, o.status, o.detail))
     r8_not_replaced(ctx, rep, rejected)
+    rep.rule("C08.R9", "nothing that can raise stands between catching the rejection and delivering it: no computed-key lookup in a fixed-key dictionary of the protocol object (an 'UNKNOWN' reason is not in FAILURE_CODES.values()) - shared with C09.R11", 2)
+    from .proto import dict_lookups_total
+    dict_lookups_total(ctx, rep, "C08.R9")
     r2(ctx, rep, rejected)
     r3(ctx, rep, rejected, table)
     # ---- R4 shared with C07: an exception frame answering a retransmission must not be glued to a fragment of the
